@@ -76,6 +76,29 @@ let parse_line (i : int) (line : string) : case =
 
 let rec list_len_int acc = function [] -> acc | _ :: r -> list_len_int (acc + 1) r
 
+(* H A n t1 hex1 .. ; OK out1 .. outn ; L x1..xn M x1..xn S x2..xn CRC c1..cn *)
+let parse_seq (i : int) (line : string) : seq_call list * int list =
+  let bad w = raise (Bad (w ^ ", line " ^ string_of_int (i + 1))) in
+  match split_on ";" (tokens line) with
+  | [ "H" :: "A" :: ns :: pairs; "OK" :: outs; obst ] ->
+      let n = int_of_string ns in
+      if List.length pairs <> 2 * n || List.length outs <> n then bad "A arity";
+      let rec inners = function _ :: hx :: r -> bytes_of_hex hx :: inners r | _ -> [] in
+      let inn = inners pairs in
+      let outv = List.map (fun t -> if String.length t > 0 && t.[0] = '!'
+                            then Err (bytes_of_hex (String.sub t 1 (String.length t - 1)))
+                            else Ok (bytes_of_hex t)) outs in
+      let (l, rest) = (match obst with "L" :: r -> (take n r, drop n r) | _ -> bad "A obs L") in
+      let (m, rest) = (match rest with "M" :: r -> (take n r, drop n r) | _ -> bad "A obs M") in
+      let (s, rest) = (match rest with "S" :: r -> (take (n - 1) r, drop (n - 1) r) | _ -> bad "A obs S") in
+      let crcs = (match rest with "CRC" :: r when List.length r = n -> List.map int_of_string r | _ -> bad "A obs CRC") in
+      let later k o =
+        let ob = (match o with Ok b -> b | Err b -> b) in
+        let rd t = if t = "=" then ob else bytes_of_hex t in
+        rd (List.nth l k) :: rd (List.nth m k) :: (if k >= 1 then [rd (List.nth s (k - 1))] else []) in
+      (List.mapi (fun k (p, o) -> { sc_inner = p; sc_out = o; sc_later = later k o }) (List.combine inn outv), crcs)
+  | _ -> bad "A line"
+
 (* ---- Coq printers ---- *)
 let cbytes (l : byte list) : string =
   "(bs [" ^ String.concat ";" (List.map (fun b -> string_of_int (int_of_byte b)) l) ^ "])"
@@ -85,9 +108,36 @@ let () =
   let path = Sys.argv.(1) in
   let coq_out = if Array.length Sys.argv > 3 && Sys.argv.(2) = "--coq" then Some (open_out Sys.argv.(3)) else None in
   let coq_max = if Array.length Sys.argv > 4 then int_of_string Sys.argv.(4) else 100 in
-  let coq_cases = ref [] and coq_n = ref 0 in
+  let coq_cases = ref [] and coq_n = ref 0 and coq_seq = ref [] in
   let idx = ref 0 in
   List.iteri (fun i line ->
+    if String.length line > 3 && String.sub line 0 4 = "H A " then begin
+      (* a sequence of calls *)
+      let calls, crcs = parse_seq i line in
+      let total = List.fold_left (fun a c -> a + list_len_int 0 c.sc_inner) 0 calls in
+      let skip = coq_out <> None && (!coq_n >= coq_max || total > 200) in
+      if skip then incr idx else begin
+      let vals_ok = accept_seq_values calls in
+      let crc_ok = List.for_all2 (fun c k -> int_of_n (crc32c c.sc_inner) = k) calls crcs in
+      let stable = seq_stable calls in
+      let all_ok = List.for_all (fun c -> match c.sc_out with Ok _ -> true | Err _ -> false) calls in
+      let acc =
+        if not all_ok then Some "error"
+        else if not vals_ok then Some "bytes"
+        else if not crc_ok then Some "crc"
+        else if not stable then Some "alias"
+        else None in
+      let mon = c19_seq_ok calls in
+      Printf.printf "hist %d line %d nev 0 acc %s m:c19 %d -1 f:inner_err 0 f:inner_len %d f:out_wellformed 0 f:seq %d\n"
+        !idx (i + 1) (match acc with None -> "ok" | Some cl -> "div 0 " ^ cl) (if mon then 1 else 0) total
+        (list_len_int 0 calls);
+      if coq_out <> None then begin
+        incr coq_n;
+        coq_seq := (calls, vals_ok, stable, mon) :: !coq_seq
+      end;
+      incr idx
+      end
+    end else
     if String.length line > 1 && line.[0] = 'H' && line.[1] = ' ' then begin
       let c = parse_line i line in
       let inner_bytes = match c.c_inner with Ok b -> b | Err b -> b in
@@ -146,7 +196,15 @@ let () =
         Printf.fprintf oc "Definition case_%d : bool := case_ok %s %s %b %d %b %d %s %b.\n" i
           (cresult c.c_inner) (cresult c.c_out) c.c_same c.c_rt acc_ok (int_of_n crc)
           (match fs_sum with None -> "None" | Some (n, h) -> Printf.sprintf "(Some (%d, %d))" n h) mon) cases;
+      output_string oc "Definition seq_case_ok (l : list seq_call) (d_vals d_stable d_mon : bool) : bool :=\n  Bool.eqb (accept_seq_values l) d_vals && Bool.eqb (seq_stable l) d_stable && Bool.eqb (C19_seq_ok l) d_mon.\n";
+      let nc = List.length cases in
+      let seqs = List.rev !coq_seq in
+      List.iteri (fun i (calls, v, st, mon) ->
+        Printf.fprintf oc "Definition case_%d : bool := seq_case_ok [%s] %b %b %b.\n" (nc + i)
+          (String.concat "; " (List.map (fun c -> Printf.sprintf "mkSeqCall %s %s [%s]" (cbytes c.sc_inner) (cresult c.sc_out)
+                                                   (String.concat "; " (List.map cbytes c.sc_later))) calls))
+          v st mon) seqs;
       Printf.fprintf oc "Definition all_cases : list bool := [%s].\n"
-        (String.concat "; " (List.mapi (fun i _ -> "case_" ^ string_of_int i) cases));
+        (String.concat "; " (List.init (nc + List.length seqs) (fun i -> "case_" ^ string_of_int i)));
       output_string oc "Definition mismatches : list nat := Eval vm_compute in\n  map fst (filter (fun p => negb (snd p)) (combine (seq 0 (length all_cases)) all_cases)).\nPrint mismatches.\n";
       close_out oc
